@@ -32,8 +32,8 @@ HARNESS_DIR = os.path.join(VERIF, "harness")
 CACHE = os.path.join(VERIF, ".cache")
 REGISTRY = os.path.join(HARNESS_DIR, "registry.json")
 KNOWN = os.path.join(VERIF, "known_findings.json")
-EVIDENCE = os.path.join(VERIF, "evidence")
-REPLAYS = os.path.join(VERIF, "replays")
+EVIDENCE = os.environ.get("VERIF_EVIDENCE_DIR", os.path.join(VERIF, "evidence"))
+REPLAYS = os.environ.get("VERIF_REPLAY_DIR", os.path.join(VERIF, "replays"))
 
 CRATES = {
     # crate name -> (cwd, extra cargo-kani args, files hashed for the result cache)
@@ -266,7 +266,7 @@ def run_harness(h, tier, use_cache=True, extra=(), log_suffix=""):
 # classification
 # ---------------------------------------------------------------------------------------------
 
-LABEL_RE = re.compile(r"^(C\d{2,3})/([A-Za-z0-9_.-]+): ?(.*)$")
+LABEL_RE = re.compile(r"^(C\d{2,3}(?:\+C\d{2,3})*)/([A-Za-z0-9_.-]+): ?(.*)$")
 
 
 def classify(h, r):
@@ -324,7 +324,7 @@ def classify(h, r):
         if st == "FAILURE":
             m = LABEL_RE.match(c["desc"])
             if m:
-                fails.append({"props": [m.group(1)], "label": m.group(1) + "/" + m.group(2), "desc": c["desc"], "loc": c["loc"], "kind": "oracle"})
+                fails.append({"props": m.group(1).split("+"), "label": m.group(1) + "/" + m.group(2), "desc": c["desc"], "loc": c["loc"], "kind": "oracle"})
             else:
                 fails.append({"props": list(h["panic_props"]), "label": "panic", "desc": c["desc"], "loc": c["loc"], "kind": "panic"})
     if covers_unreach and covers_sat == 0:
@@ -547,7 +547,7 @@ def check_property(prop, tier, only=None, jobs=None, use_cache=True, do_replay=T
                 n_checks += 1
                 n_ok += c["status"] in ("SUCCESS", "UNREACHABLE")
                 m = LABEL_RE.match(c["desc"])
-                if m and m.group(1) == prop and c["status"] == "SUCCESS":
+                if m and prop in m.group(1).split("+") and c["status"] == "SUCCESS":
                     labels_ok.add(h["name"] + ":" + m.group(2))
         solver_s += r["solver_s"] or 0
         vccs += r["vccs"] or 0
@@ -557,6 +557,11 @@ def check_property(prop, tier, only=None, jobs=None, use_cache=True, do_replay=T
             inconcl.append(h["name"] + ": vacuity witness not reached: " + "; ".join(covers_bad))
         for f in others:
             notes.append("%s: failure attributed to %s (not this property): %s" % (h["name"], ",".join(f["props"]), f["desc"]))
+        if others and not mine:
+            # Kani's assert is check-then-assume: a failing assertion cuts off the paths behind it, so
+            # this property's own assertions in the same harness were not checked on those paths
+            inconcl.append("%s: fails under another property's label (%s); this property's assertions behind that failure were not checked - not a pass" % (
+                h["name"], "; ".join(sorted(set(f["label"] for f in others)))))
         sample = {"harness": h["name"], "obligation": h.get("obligation", ""), "bounds": h.get("bounds", ""),
                   "functions": h.get("functions", []), "stubs": h.get("stubs", []), "verdict": r["verdict"],
                   "wall_s": r["wall_s"], "solver_s": r["solver_s"], "cbmc_checks": len(r["checks"]),
